@@ -165,6 +165,13 @@ func (c *Client) Hello(localName string) error {
 	if err := validateLine(localName); err != nil {
 		return err
 	}
+	// The argument of EHLO/HELO is a single domain or address literal (RFC 5321, section 4.1.1.1).
+	// A blank or control character would add a further argument to the command line.
+	for i := 0; i < len(localName); i++ {
+		if localName[i] <= ' ' || localName[i] == 0x7f {
+			return errors.New("smtp: the local name for HELO/EHLO must not contain blanks or control characters")
+		}
+	}
 	if c.didHello {
 		return errors.New("smtp: Hello called after other methods")
 	}
